@@ -3,6 +3,7 @@ package main
 import (
 	"fmt"
 	"math/rand"
+	"net"
 	"strings"
 	"sync"
 	"time"
@@ -10,7 +11,7 @@ import (
 
 func init() {
 	checks["C14"] = func(rep *Report, tier string, seed int64) {
-		rep.Rule = "built with the race detector: for every stack configuration (L1-only / L1/L2, with and without the locking wrapper, pass-through, chunked and batched L1, main and batch port) rounds of 2..64 concurrent client connections (text and binary), each running a seeded random sequence of all commands — including requests that are refused and answered with error bodies — over its PRIVATE key set, all at the same time; afterwards every connection's transcript is judged on its own by the single-map specification started from empty (i.e. against what it would have observed alone) and, for pass-through stacks, compared byte for byte with the Lean model run alone; a data race reported by the detector, a fatal runtime error or a hang fails the check; distinct = distinct (configuration, round, connection)"
+		rep.Rule = "built with the race detector: for every stack configuration (L1-only / L1/L2, with and without the locking wrapper, pass-through, chunked and batched L1, main and batch port) rounds of 2..64 concurrent client connections (text and binary), each running a seeded random sequence of all commands — including requests that are refused and answered with error bodies — over its PRIVATE key set, all at the same time; afterwards every connection's transcript is judged on its own by the single-map specification started from empty (i.e. against what it would have observed alone) and, for pass-through stacks, compared byte for byte with the Lean model run alone; during every round one more connection issues gets, multi-key gets, sets and get-and-touches that the backends answer with error statuses (its keys share lock stripes with the others'): it must not change what the private connections observe; a data race reported by the detector, a fatal runtime error or a hang fails the check; distinct = distinct (configuration, round, connection)"
 		d := StartDriver()
 		defer d.Close()
 		distinct := map[string]bool{}
@@ -23,111 +24,220 @@ func init() {
 			steps = 40
 		}
 		for ci, cfg := range cfgs {
-			st := GetStack(cfg)
 			for ri, n := range rounds {
-				st.Reset()
-				if cfg.L1 == "inmem" {
-					resetInmem()
-				}
-				type conn struct {
-					cc    ConnCfg
-					cmds  []Command
-					outs  [][]byte
-					ends  []string
-					datas [][]byte
-				}
-				conns := make([]*conn, n)
-				now := time.Now().Unix()
-				for i := range conns {
-					g := &Gen{r: rand.New(rand.NewSource(seed*7919 + int64(ci)*1000 + int64(ri)*100 + int64(i)))}
-					// private keys
-					g.keys = [][]byte{[]byte(fmt.Sprintf("c%d-a", i)), []byte(fmt.Sprintf("c%d-b", i)), []byte(fmt.Sprintf("c%d-key", i))}
-					proto := []string{"bin", "text"}[i%2]
-					port := "main"
-					if cfg.Orca == "l1l2" && i%3 == 2 {
-						port = "batch"
-					}
-					c := &conn{cc: ConnCfg{ID: fmt.Sprintf("k%d", i), Port: port, Proto: proto}}
-					for s := 0; s < steps; s++ {
-						cmd := g.failingCommand(proto, now)
-						if cmd.Kind == "raw" {
-							continue
-						}
-						if proto == "text" && cmd.Kind == "gat" {
-							cmd.Kind = "touch"
-						}
-						if cmd.Exptime >= 1 && cmd.Exptime <= 5 {
-							// the connections run against the wall clock for several seconds and each is
-							// judged at one fixed time: no lifetimes that can end during the run
-							cmd.Exptime += 100
-						}
-						if cfg.L1 == "batched" && (cmd.Kind == "gat" || cmd.Kind == "touch") {
-							cmd.Exptime = 0
-						}
-						c.cmds = append(c.cmds, cmd)
-					}
-					conns[i] = c
-				}
-				var wg sync.WaitGroup
-				for _, c := range conns {
-					wg.Add(1)
-					go func(c *conn) {
-						defer wg.Done()
-						cl := st.Dial(c.cc.Port, c.cc.Proto)
-						defer cl.Close()
-						for _, cmd := range c.cmds {
-							data := cmd.Encode(c.cc.Proto)
-							out, ending := cl.Feed(data, 10*time.Second)
-							c.datas = append(c.datas, data)
-							c.outs = append(c.outs, out)
-							c.ends = append(c.ends, ending)
-							if ending != "eof" {
-								return
-							}
-						}
-					}(c)
-				}
-				wg.Wait()
-				// judge every connection on its own
-				for i, c := range conns {
-					rep.Evaluations++
-					tag := fmt.Sprintf("%s/%d/%d", cfg, n, i)
-					distinct[tag] = true
-					rep.Distribution[fmt.Sprintf("conns:%d", n)]++
-					d.Send("case C14-"+tag, 0)
-					d.Send(connLine(cfg, c.cc), 0)
-					d.Send(fmt.Sprintf("now %d", now), 0)
-					ok := true
-					for j := range c.outs {
-						sl := len(binSentinelReply)
-						if c.cc.Proto == "text" {
-							sl = len(textSentinelReply)
-						}
-						if c.ends[j] != "eof" {
-							rep.Violations = append(rep.Violations, Violation{What: fmt.Sprintf("%s, %d concurrent connections: connection %d (%s, %s port) ended %q at its command %d (%s)", cfg, n, i, c.cc.Proto, c.cc.Port, c.ends[j], j, c.cmds[j].Describe()),
-								Signature: "concurrent-" + c.ends[j], Replay: map[string]interface{}{"stack": cfg.String(), "connections": n, "connection": i, "command": c.cmds[j].Describe(), "seed": seed}})
-							ok = false
-							break
-						}
-						body := c.outs[j][:len(c.outs[j])-sl]
-						v := d.Send(fmt.Sprintf("oracle %s %s %s", c.cc.ID, hx(c.datas[j]), hx(body)), 1)
-						if !strings.HasPrefix(v[0], "oracle ok") && !strings.HasPrefix(v[0], "oracle skip") {
-							var hist []string
-							for _, cm := range c.cmds[:j+1] {
-								hist = append(hist, cm.Describe())
-							}
-							rep.Violations = append(rep.Violations, Violation{What: fmt.Sprintf("%s, %d concurrent connections on private keys: connection %d (%s, %s port) got a reply to its command %d (%s) that it would not get alone: %s", cfg, n, i, c.cc.Proto, c.cc.Port, j, c.cmds[j].Describe(), v[0]),
-								Signature: "interference:" + c.cmds[j].Kind, Replay: map[string]interface{}{"stack": cfg.String(), "connections": n, "connection": i, "history": hist, "reply": canonN(300, body), "seed": seed}})
-							ok = false
-							break
-						}
-					}
-					if ok {
-						rep.Validated++
-					}
-				}
+				privateRound(rep, d, distinct, cfg, ci, ri, n, steps, seed, tier, troublemaker)
 			}
 		}
 		rep.Distinct = len(distinct)
 	}
+}
+
+// privateRound: n concurrent connections, each running a seeded random sequence over its PRIVATE key
+// set on one stack; afterwards each transcript is judged on its own by the single-map
+// specification. `background` (optional) runs other traffic on the same stack for the duration of
+// the round — connections that misbehave, are refused, or attack the parser — and must not change
+// what the private connections observe.
+func privateRound(rep *Report, d *Driver, distinct map[string]bool, cfg StackCfg, ci, ri, n, steps int, seed int64, tier string,
+	background func(st *Stack, stop <-chan struct{}, wg *sync.WaitGroup)) {
+	st := GetStack(cfg)
+
+	st.Reset()
+	if cfg.L1 == "inmem" {
+		resetInmem()
+	}
+	type conn struct {
+		cc    ConnCfg
+		cmds  []Command
+		outs  [][]byte
+		ends  []string
+		datas [][]byte
+	}
+	conns := make([]*conn, n)
+	now := time.Now().Unix()
+	for i := range conns {
+		g := &Gen{r: rand.New(rand.NewSource(seed*7919 + int64(ci)*1000 + int64(ri)*100 + int64(i)))}
+		// private keys
+		g.keys = [][]byte{[]byte(fmt.Sprintf("c%d-a", i)), []byte(fmt.Sprintf("c%d-b", i)), []byte(fmt.Sprintf("c%d-key", i))}
+		proto := []string{"bin", "text"}[i%2]
+		port := "main"
+		if cfg.Orca == "l1l2" && i%3 == 2 {
+			port = "batch"
+		}
+		c := &conn{cc: ConnCfg{ID: fmt.Sprintf("k%d", i), Port: port, Proto: proto}}
+		for s := 0; s < steps; s++ {
+			cmd := g.failingCommand(proto, now)
+			if cmd.Kind == "raw" {
+				continue
+			}
+			if proto == "text" && cmd.Kind == "gat" {
+				cmd.Kind = "touch"
+			}
+			if cmd.Exptime >= 1 && cmd.Exptime <= 5 {
+				// the connections run against the wall clock for several seconds and each is
+				// judged at one fixed time: no lifetimes that can end during the run
+				cmd.Exptime += 100
+			}
+			if cfg.L1 == "batched" && (cmd.Kind == "gat" || cmd.Kind == "touch") {
+				cmd.Exptime = 0
+			}
+			c.cmds = append(c.cmds, cmd)
+		}
+		conns[i] = c
+	}
+	stopBg := make(chan struct{})
+	var bgWg sync.WaitGroup
+	if background != nil {
+		background(st, stopBg, &bgWg)
+	}
+	var wg sync.WaitGroup
+	for _, c := range conns {
+		wg.Add(1)
+		go func(c *conn) {
+			defer wg.Done()
+			cl := st.Dial(c.cc.Port, c.cc.Proto)
+			defer cl.Close()
+			for _, cmd := range c.cmds {
+				data := cmd.Encode(c.cc.Proto)
+				out, ending := cl.Feed(data, 10*time.Second)
+				c.datas = append(c.datas, data)
+				c.outs = append(c.outs, out)
+				c.ends = append(c.ends, ending)
+				if ending != "eof" {
+					return
+				}
+			}
+		}(c)
+	}
+	wg.Wait()
+	close(stopBg)
+	bgWg.Wait()
+	st.L1.FailPrefix, st.L2.FailPrefix = "", ""
+	// judge every connection on its own
+	for i, c := range conns {
+		rep.Evaluations++
+		tag := fmt.Sprintf("%s/%d/%d", cfg, n, i)
+		distinct[tag] = true
+		rep.Distribution[fmt.Sprintf("conns:%d", n)]++
+		d.Send("case C14-"+tag, 0)
+		d.Send(connLine(cfg, c.cc), 0)
+		d.Send(fmt.Sprintf("now %d", now), 0)
+		ok := true
+		for j := range c.outs {
+			sl := len(binSentinelReply)
+			if c.cc.Proto == "text" {
+				sl = len(textSentinelReply)
+			}
+			if c.ends[j] != "eof" {
+				rep.Violations = append(rep.Violations, Violation{What: fmt.Sprintf("%s, %d concurrent connections: connection %d (%s, %s port) ended %q at its command %d (%s)", cfg, n, i, c.cc.Proto, c.cc.Port, c.ends[j], j, c.cmds[j].Describe()),
+					Signature: "concurrent-" + c.ends[j], Replay: map[string]interface{}{"stack": cfg.String(), "connections": n, "connection": i, "command": c.cmds[j].Describe(), "seed": seed}})
+				ok = false
+				break
+			}
+			body := c.outs[j][:len(c.outs[j])-sl]
+			v := d.Send(fmt.Sprintf("oracle %s %s %s", c.cc.ID, hx(c.datas[j]), hx(body)), 1)
+			if !strings.HasPrefix(v[0], "oracle ok") && !strings.HasPrefix(v[0], "oracle skip") {
+				var hist []string
+				for _, cm := range c.cmds[:j+1] {
+					hist = append(hist, cm.Describe())
+				}
+				rep.Violations = append(rep.Violations, Violation{What: fmt.Sprintf("%s, %d concurrent connections on private keys: connection %d (%s, %s port) got a reply to its command %d (%s) that it would not get alone: %s", cfg, n, i, c.cc.Proto, c.cc.Port, j, c.cmds[j].Describe(), v[0]),
+					Signature: "interference:" + c.cmds[j].Kind, Replay: map[string]interface{}{"stack": cfg.String(), "connections": n, "connection": i, "history": hist, "reply": canonN(300, body), "seed": seed}})
+				ok = false
+				break
+			}
+		}
+		if ok {
+			rep.Validated++
+		}
+	}
+}
+
+// troublemaker: one more connection whose every request the backends refuse with an error status
+// (keys with a prefix the fake backends are told to fail) — gets, multi-key gets, writes — while the
+// private connections run. Its keys share lock stripes with theirs; it is not judged itself.
+func troublemaker(st *Stack, stop <-chan struct{}, wg *sync.WaitGroup) {
+	if st.Cfg.L1 == "inmem" || st.Cfg.L1 == "batched" {
+		return
+	}
+	st.L1.FailPrefix, st.L1.FailStatus = "zz-bad-", 0x0084
+	st.L2.FailPrefix, st.L2.FailStatus = "zz-bad-", 0x0084
+	wg.Add(1)
+	go func() {
+		defer wg.Done()
+		cl := st.Dial("main", "bin")
+		defer cl.Close()
+		for i := 0; ; i++ {
+			select {
+			case <-stop:
+				return
+			default:
+			}
+			k := []byte(fmt.Sprintf("zz-bad-%d", i%40))
+			var c Command
+			switch i % 4 {
+			case 0:
+				c = Command{Kind: "get", Keys: []GetKey{{Key: k, Opaque: uint32(i)}}}
+			case 1:
+				c = Command{Kind: "get", Keys: []GetKey{{Key: k, Opaque: uint32(i), Quiet: true}, {Key: []byte(fmt.Sprintf("zz-bad-%d", (i+7)%40)), Opaque: uint32(i + 1)}}}
+			case 2:
+				c = Command{Kind: "set", Key: k, Data: []byte("x"), Opaque: uint32(i)}
+			default:
+				c = Command{Kind: "gat", Key: k, Exptime: 10, Opaque: uint32(i)}
+			}
+			if _, e := cl.Feed(c.Encode("bin"), 3*time.Second); e != "eof" {
+				cl.Close()
+				cl = st.Dial("main", "bin")
+			}
+			if i > 400 {
+				time.Sleep(2 * time.Millisecond)
+			}
+		}
+	}()
+}
+
+// attackers: connections that keep sending malformed input (a valid request followed by garbage,
+// truncated frames, bad magic bytes, broken text lines), are cut off by the server and come back.
+func attackers(st *Stack, stop <-chan struct{}, wg *sync.WaitGroup) {
+	junk := [][]byte{
+		append(append([]byte{}, binSentinel...), bytes24('A')...),                                   // valid no-op, then a frame with a bad magic byte
+		append(append([]byte{}, binSentinel...), 0x80, 0x01, 0x00, 0x05, 0x08, 0, 0, 0, 0, 0, 0, 3), // set header cut short
+		append(append([]byte{}, binSentinel...), 0x81, 0x00, 0, 0, 0, 0, 0, 0, 0, 0, 0, 0, 0, 0, 0, 0, 0, 0, 0, 0, 0, 0, 0, 0),
+		[]byte("noop\r\nset k 0 0 notanumber\r\n"),
+		[]byte("noop\r\nget\r\nbogus command line\r\n\x00\xff\x80"),
+		[]byte("noop\r\nset k 0 0 5\r\nab"),
+	}
+	for a := 0; a < 4; a++ {
+		wg.Add(1)
+		go func(a int) {
+			defer wg.Done()
+			for i := 0; ; i++ {
+				select {
+				case <-stop:
+					return
+				default:
+				}
+				c, err := net.Dial("unix", st.MainSock)
+				if err != nil {
+					return
+				}
+				c.Write(junk[(a+i)%len(junk)])
+				c.SetReadDeadline(time.Now().Add(50 * time.Millisecond))
+				buf := make([]byte, 4096)
+				for {
+					if _, err := c.Read(buf); err != nil {
+						break
+					}
+				}
+				c.Close()
+			}
+		}(a)
+	}
+}
+
+func bytes24(b byte) []byte {
+	out := make([]byte, 24)
+	for i := range out {
+		out[i] = b
+	}
+	return out
 }
